@@ -15,7 +15,7 @@ use crate::runner::{Runner, Tier};
 pub fn eq_fns(r: &mut Runner) {
     let maxlen = match r.tier {
         Tier::Miri => 24usize,
-        Tier::Quick => 40,
+        Tier::Quick => 64,
         Tier::Thorough => 80,
     };
     let mut x: Vec<u8> = Vec::new();
